@@ -263,6 +263,14 @@ def rand_dimspec(rng, n, allow_bad=False):
     return ['list', [lit(rng.choice(FPOOL)) for _ in range(n)]]
 
 
+def rand_dimspec_full(rng, n):
+    a, st = rng.choice(FPOOL), rng.choice(FPOOL[:8])
+    v = [a + st * float(i) for i in range(n)]
+    if n > 2 and rng.random() < 0.5:
+        v[-1] += 0.25          # not linear: stored in full
+    return [rng.choice(['arr', 'list']), [lit(x) for x in v]]
+
+
 def gen_scenario(rng, focus):
     rank = rng.choice([1, 1, 2, 2, 3, 4] if focus != 'thorough' else [1, 2, 3, 4, 5, 6])
     shape = [rng.choice([1, 2, 3, 4, 5, 7]) for _ in range(rank)]
@@ -288,6 +296,17 @@ def gen_scenario(rng, focus):
         datashape = shape
     nd = rng.choice([None, rank, rank, max(rank - 1, 0), rank + 1])
     dims = None if nd is None else [rand_dimspec(rng, shape[i] if i < rank else 3) for i in range(nd)]
+    share = False
+    if dims is not None and rank >= 2 and len(dims) >= 2 and rng.random() < 0.2:
+        # the same full-length vector object on two axes of equal extent
+        i, j = rng.sample(range(min(rank, len(dims))), 2)
+        if shape[i] == shape[j] or True:
+            shape[j] = shape[i]
+            if stack:
+                datashape = [depth] + shape
+            else:
+                datashape = shape
+            dims[i] = rand_dimspec_full(rng, shape[i]); dims[j] = dims[i]; share = True
     nu = rng.choice([None, rank, rank - 1, rank + 1])
     units = None if nu is None or nu < 0 else [rng.choice(UNITS) for _ in range(nu)]
     nn = rng.choice([None, rank, rank - 1, rank + 1])
@@ -311,7 +330,7 @@ def gen_scenario(rng, focus):
             ops.insert(rng.randrange(len(ops)), {'op': 'slices'})
         ops.append({'op': 'slices'})
     ops.append({'op': 'save'})
-    return {'datashape': datashape, 'dims': dims, 'units': units, 'names': names, 'labels': labels,
+    return {'share_dims': share, 'datashape': datashape, 'dims': dims, 'units': units, 'names': names, 'labels': labels,
             'dtype': rng.choice(DTYPES), 'layout': rng.choice(['C', 'C', 'F', 'strided', 'neg', 'T']),
             'data_units': rng.choice(['', 'counts', 'e⁻', 'intensity']), 'name': rng.choice(['arr', 'my array', 'données']),
             'ops': ops, 'seed': rng.randrange(10 ** 6)}
@@ -334,6 +353,10 @@ def run_scenario(sc, scratch):
     kw = {}
     if sc['dims'] is not None:
         kw['dims'] = [mk_dimarg(d) for d in sc['dims']]
+        if sc.get('share_dims'):
+            # axes given equal vectors get ONE object (dims=[q, q] for a square image): each axis still has its own name and units
+            seen = {}
+            kw['dims'] = [seen.setdefault(repr(d), a) if d is not None else a for d, a in zip(sc['dims'], kw['dims'])]
     if sc['units'] is not None:
         kw['dim_units'] = list(sc['units'])
     if sc['names'] is not None:
